@@ -507,6 +507,10 @@ pub struct CallGuard {
 impl CallGuard {
     pub fn start(sh: &Shared, actor: usize, kind: OpKind, mty: char, uid: u64, to: u64, ctx: Ctx) -> CallGuard {
         let op = sh.next_op();
+        if !tokio::task::coop::has_budget_remaining() {
+            // the caller's cooperative budget is used up: the call's first budgeted operation will yield instead of completing
+            sh.log.push(K::Note(format!("nobudget {op}")));
+        }
         sh.log.push(K::CallStart {
             op,
             actor,
@@ -751,6 +755,11 @@ impl SA {
             match st {
                 Step::Sleep(ms) => tokio::time::sleep(Duration::from_millis(*ms)).await,
                 Step::Yield => tokio::task::yield_now().await,
+                Step::Coop(n) => {
+                    for _ in 0..*n {
+                        tokio::task::coop::consume_budget().await;
+                    }
+                }
                 Step::Gate(g) => {
                     if let Ok(p) = sh.gates[*g].acquire().await {
                         p.forget();
